@@ -601,15 +601,15 @@ def to_script(dataframe_schema, path_or_buf=None):
         index=index,
         dtype=dataframe_schema.dtype,
         coerce=dataframe_schema.coerce,
-        strict=dataframe_schema.strict,
+        strict=dataframe_schema.strict.__repr__(),
         name=dataframe_schema.name.__repr__(),
         ordered=dataframe_schema.ordered,
         unique=dataframe_schema.unique,
         report_duplicates=f'"{dataframe_schema.report_duplicates}"',
         unique_column_names=dataframe_schema.unique_column_names,
         add_missing_columns=dataframe_schema.add_missing_columns,
-        title=dataframe_schema.title,
-        description=dataframe_schema.description,
+        title=dataframe_schema.title.__repr__(),
+        description=dataframe_schema.description.__repr__(),
     ).strip()
 
     # add pandas imports to handle datetime and timedelta.
